@@ -115,6 +115,30 @@ where
     _lifetime: PhantomData<&'a ()>,
 }
 
+#[cfg(bacon_verif)]
+impl<'a, N, D, const O: usize, T, F, R> RungeKutta<'a, N, D, O, T, F, R>
+where
+    D: Dimension,
+    N: ComplexField + Copy,
+    T: Clone,
+    F: Derivative<N, D, T> + 'a,
+    R: RungeKuttaCoefficients<O, RealField = N::RealField>,
+    DefaultAllocator: Allocator<N, D>,
+    DefaultAllocator: Allocator<N, Const<O>>,
+{
+    /// Verification accessor: (tolerance, dt_min, dt_max, start, end) as set so far.
+    pub fn verif_params(&self) -> [Option<f64>; 5] {
+        let f = |x: &Option<N::RealField>| x.clone().map(crate::verif_hooks::to_f64);
+        [
+            f(&self.init_tolerance),
+            f(&self.init_dt_min),
+            f(&self.init_dt_max),
+            f(&self.init_time),
+            f(&self.init_end),
+        ]
+    }
+}
+
 impl<'a, N, D, const O: usize, T, F, R> IVPSolver<'a, D> for RungeKutta<'a, N, D, O, T, F, R>
 where
     D: Dimension,
@@ -359,6 +383,18 @@ where
     type UserData = T;
 
     fn step(&mut self) -> Step<Self::RealField, Self::Field, D, Self::Error> {
+        #[cfg(bacon_verif)]
+        crate::verif_hooks::emit(crate::verif_hooks::Snapshot {
+            kind: "rk",
+            order: O,
+            time: crate::verif_hooks::to_f64(self.time.real()),
+            dt: crate::verif_hooks::to_f64(self.dt.real()),
+            yield_memory: 0,
+            values_len: 0,
+            values_first: 0.0,
+            values_last: 0.0,
+            derivs_len: 0,
+        });
         if self.time.real() >= self.end.real() {
             return Err(IVPStatus::Done);
         }
